@@ -4,7 +4,8 @@ Space: DiffractionPatterns (shapes odd/even/mixed, anisotropic sampling, ensembl
 3 floats, tuple}; Images x interpolate(method='fft') to the same grid, to integer multiples, to co-prime sizes, up and down,
 lazy/eager; 4-D data (scan 3x4 x pattern 9x8, and polar 4x3) x sigma in {0.3, 1.0, (0.5, 1.2)} x 3 limit pairs for the
 commutation gaussian_source_size -> integrate vs integrate -> gaussian_filter (periodic), DiffractionPatterns and
-PolarMeasurements, lazy and eager.
+PolarMeasurements, lazy and eager; the same commutation on 6x8 scans with a non-scan ensemble axis before / after / on both
+sides of the scan axes x lazy block layouts of the scan {one block, (3,3)x(4,4), all ones, ragged (4,2)x(1,5,2)}.
 Oracle: sum of every pattern preserved; identity on the same grid; image mean preserved; the two orders of
 filtering and integrating agree.
 """
@@ -36,6 +37,11 @@ def check(ctx):
         cases.append({"kind": "im", "im": i, "target": t, "lazy": lazy})
     for what, s, lim, lazy in itertools.product(("dp", "polar"), (0.3, 1.0, [0.5, 1.2]), range(3), (False, True)):
         cases.append({"kind": "source", "what": what, "sigma": s, "lim": lim, "lazy": lazy})
+    # layouts: a non-scan ensemble axis before / after the scan axes x every way the lazy scan can be split into dask blocks
+    for what, s, lead, chunks in itertools.product(("dp", "polar"), (0.3, [0.5, 1.2]), ("lead", "trail", "both"), ("eager", "one", "split", "ones", "ragged")):
+        if ctx.quick and what == "polar" and chunks in ("ones", "one"):
+            continue
+        cases.append({"kind": "source", "what": what, "sigma": s, "lim": 1, "lazy": chunks != "eager", "lead": lead, "chunks": chunks})
     ctx.run(cases, "run_case", rule="dp: (pattern shape/sampling, target, ensemble, lazy); im: (image, target grid, lazy); source: (kind, sigma, limits, lazy); non-trivial = grid changes")
 
 
@@ -117,32 +123,52 @@ def run_case(c):
     from scipy.ndimage import gaussian_filter
 
     r = rng("c16src", c["what"])
-    scan = (3, 4)
+    lead = c.get("lead")
+    scan = (6, 8) if lead else (3, 4)
     ssamp = (0.5, 0.4)
     axes = [ScanAxis(label="x", sampling=ssamp[0], units="Å"), ScanAxis(label="y", sampling=ssamp[1], units="Å")]
+    pre = [OrdinalAxis(label="series", values=(0, 1))] if lead in ("lead", "both") else []
+    post = [OrdinalAxis(label="frame", values=(0, 1, 2))] if lead in ("trail", "both") else []
+    axes = pre + axes + post
+    nscan0 = len(pre)
+    scan_full = (2,) * len(pre) + scan + (3,) * len(post)
     sigma = tuple(c["sigma"]) if isinstance(c["sigma"], list) else (c["sigma"], c["sigma"])
     if c["what"] == "dp":
-        arr = r.random(size=scan + (9, 8)).astype(np.float32)
+        arr = r.random(size=scan_full + (9, 8)).astype(np.float32)
         m = M.DiffractionPatterns(arr, sampling=(0.05, 0.06), ensemble_axes_metadata=axes, metadata={"energy": 1e5})
         lims = [(0.0, 5.0), (2.0, 7.0), (1.0, 4.5)][c["lim"]]
         integ = lambda x: x.integrate_radial(*lims)  # noqa: E731
     else:
-        arr = r.random(size=scan + (4, 3)).astype(np.float32)
+        arr = r.random(size=scan_full + (4, 3)).astype(np.float32)
         m = M.PolarMeasurements(arr, radial_sampling=2.0, azimuthal_sampling=2 * np.pi / 3, ensemble_axes_metadata=axes, metadata={"energy": 1e5})
         lims = [(0.0, 4.0), (2.0, 8.0), (0.0, 8.0)][c["lim"]]
         integ = lambda x: x.integrate_radial(*lims)  # noqa: E731
     if c["lazy"]:
         m = m.ensure_lazy()
+        ch = c.get("chunks", "one")
+        if ch != "one":
+            split = {"split": ((3, 3), (4, 4)), "ones": ((1,) * 6, (1,) * 8), "ragged": ((4, 2), (1, 5, 2))}[ch]
+            m = m.rechunk(tuple((1,) * n for n in scan_full[:nscan0]) + split + tuple((n,) for n in scan_full[nscan0 + 2:]) + tuple((n,) for n in arr.shape[-2:]))
     a = integ(m.gaussian_source_size(sigma if sigma[0] != sigma[1] else sigma[0]))
-    a = np.asarray((a.compute() if c["lazy"] else a).array, dtype=np.float64)
+    a = a.compute() if c["lazy"] else a
+    # integration turns the scan axes into the (last two) image axes; the other ensemble axes stay in front
+    spatial = [i for i, ax in enumerate(a.axes_metadata) if type(ax).__name__ in ("RealSpaceAxis", "ScanAxis")]
+    a = np.asarray(a.array, dtype=np.float64)
     b0 = integ(m)
     b0 = np.asarray((b0.compute() if c["lazy"] else b0).array, dtype=np.float64)
-    b = gaussian_filter(b0, sigma=(sigma[0] / ssamp[0], sigma[1] / ssamp[1]), mode="wrap")
+    svec = [0.0] * b0.ndim
+    if len(spatial) != 2 or b0.shape != a.shape:
+        bad("source-size/result-axes", "integrated result has axes %r / shapes %r vs %r" % (spatial, a.shape, b0.shape))
+        return {"viol": viol, "obs": "axes"}
+    svec[spatial[0]], svec[spatial[1]] = sigma[0] / ssamp[0], sigma[1] / ssamp[1]
+    b = gaussian_filter(b0, sigma=tuple(svec), mode="wrap")
     e = float(np.abs(a - b).max()) / float(np.abs(b).max())
     if not e <= 1e-5:
         bad("source-size/commutation/%s" % c["what"], "gaussian_source_size then integrate differs from integrate then Gaussian filter by %.3g (sigma %r, limits %r)" % (e, sigma, lims))
     # the abTEM image-level filter must agree too
     try:
+        if lead:
+            raise TypeError
         img = integ(m)
         img = img.compute() if c["lazy"] else img
         cimg = np.asarray(img.gaussian_filter(sigma if sigma[0] != sigma[1] else sigma[0], boundary="periodic").array, dtype=np.float64)
